@@ -3,11 +3,14 @@ pub mod c03;
 pub mod c05;
 pub mod c10;
 pub mod c13;
+pub mod codegen;
+pub mod router;
 pub mod rpc;
 pub mod conn;
 pub mod smoke;
 pub mod tables;
 pub mod tower;
+pub mod wire;
 
 use serde_json::Value;
 use std::collections::HashMap;
@@ -49,6 +52,9 @@ pub fn dispatch(args: &[String]) -> i32 {
         "table-tiebreak" => tables::tiebreak(&a),
         "replay-inflight" => tower::replay_inflight(&a),
         "replay-auth" => tower::replay_auth(&a),
+        "replay-wire" => wire::replay(&a),
+        "replay-codegen" => codegen::replay(&a),
+        "replay-router" => router::replay(&a),
         "replay-rate" => tower::replay_rate(&a),
         "rate-hint-probe" => tower::rate_hint_probe(&a),
         other => {
